@@ -38,6 +38,7 @@ def run(ck, tier):
     ck.rule("R-C12-chunklocal", "the slice given to run_on_chunk is an item of iter_chunks(); run_on_chunk hands Pattern::matches and match_to_lint only sub-slices of that chunk; match_to_lint bodies read `source` only through spans derived from the matched tokens")
     ck.rule("R-C12-rebase", "cached pattern lints are re-based symmetrically by the chunk start (rule instance of R-C05-key (d))")
     ck.rule("R-C12-condense", "the condensing passes only extend a kept token's span and remove tokens (rule instances of R-C02-condense)")
+    ck.rule("R-C12-tile", "the end of the input is not special: the plain-English front end never takes a token out again after laying the tokens end to end, so a paragraph at the end of the text has the same tokens as the same paragraph followed by more text (rule instance of R-C02-tile)")
     ck.rule("R-C12-stale", "a condensation in one paragraph must not shift the token indices used for a condensation in a later one: indices collected before an earlier removal are re-based by exactly the tokens it removes (rule instances of R-C02-stale)")
     ck.rule("R-C12-lexlocal", "token boundaries are decided from the front: no function in lex_token's table (nor a helper that receives the uncut remaining input) scans that input from its end (rev / rposition / rfind / last / ends_with / next_back ...); otherwise text arbitrarily far behind a token - in a later paragraph - changes how it is lexed")
     ck.not_decided += ["whether each of the 24 hand-written rule structs ignores everything beyond a paragraph break (they read neighbouring tokens by index)", "document-level passes other than the condensing ones", "quote pairing (excluded by the property's premise)"]
@@ -161,6 +162,7 @@ def run(ck, tier):
     c05._key(c05._Sub(_only(ck, ("chunk-cache:rebase", "chunk-cache:get:chars", "chunk-cache:put:chars")), "R-C12-rebase", ""), p, byk)
     c02._condense(c05._Sub(ck, "R-C12-condense", ""), p, byk)
     c02._stale(c05._Sub(ck, "R-C12-stale", ""), p, byk)
+    c02._tile(c05._Sub(_only(ck, "PlainEnglish::parse:only-grows"), "R-C12-tile", ""), p, byk)
 
 
 def _only(ck, keep):
